@@ -536,6 +536,25 @@ func init() {
 		type famIdx struct {
 			fam, size, idx int
 		}
+		// fixed size-boundary inputs: array dimension counts around 2^15 and 2^16
+		// (the width of a 16-bit counter), and two parallel families of n nested
+		// two-member struct types with an output of the one bound to an input of
+		// the other (a few KB of source; the assignability check must not redo
+		// the same pair of types 2^n times)
+		for _, n := range []int{32767, 32768, 65535, 65536, 70000} {
+			add('s', "stage A(\n in int"+strings.Repeat("[]", n)+" x,\n src comp \"a\",\n)\n", fmt.Sprintf("type-dims:%d", n))
+			add('s', "stage A(\n in map<int"+strings.Repeat("[]", n)+"> x,\n src comp \"a\",\n)\n", fmt.Sprintf("type-dims-in-map:%d", n))
+		}
+		for _, n := range []int{12, 20, 40} {
+			var sb strings.Builder
+			sb.WriteString("struct A0(\n int x,\n)\nstruct B0(\n int x,\n int y,\n)\n")
+			for i := 1; i <= n; i++ {
+				fmt.Fprintf(&sb, "struct A%d(\n A%d l,\n A%d r,\n)\nstruct B%d(\n B%d l,\n B%d r,\n)\n", i, i-1, i-1, i, i-1, i-1)
+			}
+			fmt.Fprintf(&sb, "stage P(\n out B%d o,\n src comp \"a\",\n)\nstage C(\n in A%d i,\n src comp \"a\",\n)\n", n, n)
+			sb.WriteString("pipeline X(\n)\n{\n call P(\n )\n call C(\n  i = P.o,\n )\n return (\n )\n}\n")
+			add('s', sb.String(), fmt.Sprintf("struct-doubling:%d", n))
+		}
 		var fams []famIdx
 		base := c.Pick(400, 4000)
 		for fi, f := range scalingFamilies {
